@@ -10,6 +10,8 @@ import (
 	lib "github.com/corazawaf/libinjection-go"
 
 	"verif/alpha"
+	"verif/fw"
+	"verif/vrt"
 )
 
 // SQL mode flags, read from the implementation's own constants.
@@ -64,3 +66,32 @@ func short(s string) string {
 }
 
 var fwStderr = os.Stderr
+
+// depthLimit is the call-depth bound enforced on the instrumented build: the tokenizers' call
+// graphs are shallow (measured maximum on the pinned tree is recorded in the evidence), so any
+// depth that grows with the input is recursion.
+const depthLimit = 48
+
+// arm sets the deterministic termination budget and the call-depth limit for the next call on the
+// instrumented build: budget = 1e6 + 64*n^2 work units for inputs up to 4 KB (a linear scanner
+// needs < 100*n; anything polynomial up to cubic on the short trie inputs stays far below 1e6),
+// no budget above that (long inputs are covered by the worker watchdog + journal).
+func arm(s string) {
+	if !vrt.Instrumented() {
+		return
+	}
+	n := int64(len(s))
+	var budget int64
+	if n <= 4096 {
+		budget = 1000000 + 64*n*n
+	}
+	vrt.ResetCounters(budget, depthLimit)
+}
+
+func disarm(w *fw.W) {
+	if !vrt.Instrumented() {
+		return
+	}
+	w.ExtraMax("max_call_depth", int64(vrt.MaxDepth()))
+	vrt.ResetCounters(0, 0)
+}
